@@ -658,7 +658,7 @@ fn run_with<P: Payload + Clone>(args: &[String]) -> i32 {
             while done < events {
                 let cap = [0usize, 0, 3, 16, 0][(k % 5) as usize];
                 // now and then a large capacity that must survive clear() (capacities beyond typical thresholds)
-                let cap = if mix == "values" && k % 2 == 1 { [1500usize, 5000, 70000][(k as usize / 2) % 3] } else { cap };
+                let cap = if mix == "values" && k % 2 == 1 { [70000usize, 1500, 5000][(k as usize / 2) % 3] } else { cap };
                 r.reset(cap);
                 if cap >= 1000 {
                     for _ in 0..3 {
